@@ -13,6 +13,8 @@ enum Case {
     IoWords { dims: Vec<u8>, vals: Vec<String> },
     /// two shapes of the same rank and element count
     Eq { dims_a: Vec<u8>, dims_b: Vec<u8>, differ_at: Option<u16> },
+    /// shapes with large extents (beyond 255 / 65535), checked on a sample of indices
+    Big { dims: Vec<u32>, seed: u32 },
 }
 
 fn arr<const D: usize>(v: &[u8]) -> [usize; D] {
@@ -178,6 +180,85 @@ fn shape<const D: usize>(dv: &[u8]) -> CaseResult {
     Ok(st)
 }
 
+fn big<const D: usize>(dv: &[u32], seed: u32) -> CaseResult {
+    let mut st = CaseStats::default();
+    let mut dims = [0usize; D];
+    for i in 0..D {
+        dims[i] = dv[i] as usize;
+    }
+    let dl = dims.to_vec();
+    let len: usize = dims.iter().product();
+    st.size = len as u64;
+    let data: Vec<i64> = (0..len as i64).map(|x| x * 3 + 1).collect();
+    let t = Tensor::<i64, D>::from_vec(dims, data.clone());
+    vensure!(t.iter().count() == len, "iter", "dims {:?}: iter() yields {} elements", dl, t.iter().count());
+    let mut r = vcore::SplitMix(seed as u64 + 19);
+    let mut w = t.clone();
+    for k in 0..1500usize {
+        // sample: random interior indices, plus every combination of first/last coordinates
+        let mut a = [0usize; D];
+        for i in 0..D {
+            a[i] = match (k >> i) & 1 {
+                _ if k < (1 << D) => {
+                    if (k >> i) & 1 == 0 {
+                        0
+                    } else {
+                        dims[i] - 1
+                    }
+                }
+                _ => r.below(dims[i] as u64) as usize,
+            };
+        }
+        let off = offset(&dl, &a);
+        vensure!(t[a] == data[off], "index", "dims {:?}: t[{:?}] = {}, row-major element {} is {}", dl, a, t[a], off, data[off]);
+        vensure!(t.get_index(a) == off, "get_index", "dims {:?}: get_index({:?}) = {}, row-major offset {}", dl, a, t.get_index(a), off);
+        w[a] = -(off as i64) - 7;
+        vensure!(w.iter().nth(off) == Some(&(-(off as i64) - 7)), "index_mut", "dims {:?}: write through {:?} did not land on element {}", dl, a, off);
+        // out of range in each single dimension
+        if k % 16 == 0 {
+            for dim in 0..D {
+                let mut extras = vec![dims[dim], dims[dim] + 1, dims[dim] + 255, dims[dim] + 256, dims[dim] + 65536];
+                let stride: usize = dims[dim + 1..].iter().product();
+                let mut z = a;
+                z[dim] = 0;
+                let base = offset(&dl, &z);
+                let maxk = (len - 1 - base) / stride;
+                if maxk >= dims[dim] {
+                    extras.push(maxk);
+                }
+                for e in extras {
+                    let mut b = a;
+                    b[dim] = e;
+                    let res = catch(|| t[b]);
+                    vensure!(res.is_err(), "out-of-range-index-accepted", "dims {:?}: t[{:?}] (dimension {} out of range) returned {:?} instead of panicking", dl, b, dim, res);
+                    let mut wc = Tensor::<i64, D>::new(dims, 0);
+                    let res = catch(move || {
+                        wc[b] = 1;
+                    });
+                    vensure!(res.is_err(), "out-of-range-index_mut-accepted", "dims {:?}: writing t[{:?}] did not panic", dl, b);
+                }
+            }
+        }
+    }
+    // IO round trip and equality against the reversed shape
+    let text = written(&t);
+    let mut rd = Reader::new(Box::new(text.as_bytes()));
+    let back = Tensor::<i64, D>::read(dims, &mut rd);
+    vensure!(back == t, "io-roundtrip", "dims {:?}: large tensor read back differently", dl);
+    if D >= 2 {
+        let mut rev = dims;
+        rev.reverse();
+        if rev != dims {
+            let u = Tensor::<i64, D>::from_vec(rev, data.clone());
+            vensure!(u != t, "eq-ignores-shape", "dims {:?} vs {:?} with identical data compare equal", dl, rev);
+        }
+    }
+    vensure!(catch(|| Tensor::<i64, D>::from_vec(dims, vec![0; len - 1])).is_err(), "from_vec-length-mismatch-accepted", "dims {:?}: from_vec accepted len-1 elements", dl);
+    st.nontrivial = true;
+    st.label("large-extent-shape");
+    Ok(st)
+}
+
 fn io_ints<const D: usize>(dv: &[u8], vals: &[i64]) -> CaseResult {
     let dims = arr::<D>(dv);
     let len: usize = dims.iter().product();
@@ -256,6 +337,9 @@ fn run_case(c: &Case) -> CaseResult {
         Case::Eq { dims_a, dims_b, differ_at } if valid(dims_a) && valid(dims_b) && dims_a.len() == dims_b.len() && dims_a.iter().map(|&x| x as usize).product::<usize>() == dims_b.iter().map(|&x| x as usize).product::<usize>() => {
             by_rank!(dims_a.len(), eq(dims_a, dims_b, *differ_at))
         }
+        Case::Big { dims, seed } if !dims.is_empty() && dims.len() <= 4 && dims.iter().all(|&x| x >= 1) && dims.iter().map(|&x| x as u64).product::<u64>() <= 300_000 => {
+            by_rank!(dims.len(), big(dims, *seed))
+        }
         _ => Ok(CaseStats::default()),
     }
 }
@@ -287,7 +371,7 @@ fn main() {
          lengths and zero extents must panic in from_vec, from_slice, new and read; writing then Tensor::read(dims) gives an equal tensor \
          and the written tokens are the elements in iter() order. Equality: all pairs of shapes of equal rank and element count with \
          identical data must compare unequal unless the dims are equal; equal dims with one differing element compare unequal. \
-         Generated i64 (full range) and String element values for the IO round trip. Non-trivial = rank >= 2 (the invalid dimension is \
+         22 shapes with large extents (255..65537 in one dimension) are checked on 1500 sampled indices each. Generated i64 (full range) and String element values for the IO round trip. Non-trivial = rank >= 2 (the invalid dimension is \
          then not always the last one) / shapes that differ. Distinct = distinct (sub-check, case).",
     );
     ctx.assume("panics demanded by the contract (out-of-range index, zero extent, length mismatch) are expected outcomes and asserted as such");
@@ -314,6 +398,11 @@ fn main() {
         }
         ctx.exhaustive(&format!("equality-rank{}", rank), "tensor-case", "all pairs of shapes of equal rank and element count, identical data; plus one differing element for equal shapes", true, pairs, run_case);
     }
+    let bigs: Vec<Vec<u32>> = vec![
+        vec![300], vec![65536], vec![65537], vec![70000], vec![255], vec![256], vec![257], vec![2, 300], vec![300, 2], vec![256, 256], vec![257, 255], vec![1, 65537], vec![65537, 1],
+        vec![3, 3, 300], vec![300, 3, 3], vec![3, 300, 3], vec![2, 2, 2, 300], vec![300, 2, 2, 2], vec![16, 16, 16, 16], vec![2, 65536], vec![65536, 2], vec![512, 129],
+    ];
+    ctx.exhaustive("large-extents", "tensor-case", "22 shapes with extents beyond 255 / 65535, 1500 sampled indices each", false, bigs.into_iter().enumerate().map(|(i, dims)| Case::Big { dims, seed: i as u32 }), run_case);
     let dims = || (1usize..=4).prop_flat_map(|r| prop::collection::vec(1u8..=4, r));
     let ival = prop_oneof![any::<i64>(), Just(i64::MIN), Just(i64::MAX), -10i64..10];
     ctx.prop("io-i64", "tensor-case", ctx.n(3_000, 60_000), (dims(), prop::collection::vec(ival, 1..20)).prop_map(|(dims, vals)| Case::IoInts { dims, vals }), run_case);
